@@ -216,4 +216,95 @@ Theorem rn_sub_spec_cond (fuel : nat) (x y z : rnum) (a b : R) :
   rn_denotes x a -> rn_denotes y b -> rn_sub fuel x y = Some z -> rn_denotes z (a - b).
 Proof. by move=> Hx Hy; apply: rn_add_spec_cond Hx (rn_neg_spec Hy). Qed.
 
+(* ---- multiplication *)
+Lemma lin_closed (c x y t : R) : x <= t <= y ->
+  Num.min (x * c) (y * c) <= t * c <= Num.max (x * c) (y * c).
+Proof.
+move=> /andP[xt ty]; rewrite le_minl le_maxr.
+case: (lerP 0 c) => Hc.
+  by rewrite (ler_wpmul2r Hc xt) (ler_wpmul2r Hc ty) orbT.
+by rewrite (ler_wnmul2r (ltW Hc) ty) (ler_wnmul2r (ltW Hc) xt) orbT.
+Qed.
+
+Lemma lin_open (c x y t : R) : c != 0 -> x < t < y ->
+  Num.min (x * c) (y * c) < t * c < Num.max (x * c) (y * c).
+Proof.
+move=> c0 /andP[xt ty]; rewrite lt_minl lt_maxr.
+case: (ltrgt0P c) c0 => // Hc _.
+  by rewrite !(ltr_pmul2r Hc) xt ty orbT.
+by rewrite !(ltr_nmul2r Hc) ty xt orbT.
+Qed.
+
+Lemma mul_encl (lo hi lo' hi' a b : R) : a != 0 -> b != 0 ->
+  (lo = a /\ hi = a) \/ lo < a < hi -> (lo' = b /\ hi' = b) \/ lo' < b < hi' ->
+  let m := Num.min (Num.min (lo * lo') (lo * hi')) (Num.min (hi * lo') (hi * hi')) in
+  let M := Num.max (Num.max (lo * lo') (lo * hi')) (Num.max (hi * lo') (hi * hi')) in
+  (m = a * b /\ M = a * b) \/ m < a * b < M.
+Proof.
+move=> a0 b0 Ha Hb m M.
+have Hca : lo <= a <= hi.
+  by case: Ha => [[-> ->]|/andP[/ltW -> /ltW ->]] //; rewrite lexx.
+case: Hb => [[El' Eh']|Hb].
+  case: Ha => [[El Eh]|Ha].
+    by left; rewrite /m /M El Eh El' Eh' !minxx !maxxx.
+  right; have := lin_open b0 Ha; rewrite /m /M El' Eh' !minxx !maxxx.
+  by [].
+right.
+have /andP[H1 H2] := lin_closed lo' Hca.
+have /andP[H3 H4] := lin_closed hi' Hca.
+have := lin_open a0 Hb; rewrite ![_ * a]mulrC => /andP[H5 H6].
+apply/andP; split.
+  apply: le_lt_trans H5; rewrite le_minr /m !le_minl.
+  rewrite -!le_minl in H1 H3 *.
+  move: H1 H3; rewrite !le_minl => /orP[H1|H1] /orP[H3|H3]; rewrite ?H1 ?H3 ?orbT //=.
+apply: lt_le_trans H6 _; rewrite le_maxl /M !le_maxr.
+by move: H2 H4; rewrite !le_maxr => /orP[H2|H2] /orP[H4|H4]; rewrite ?H2 ?H4 ?orbT //=.
+Qed.
+
+Lemma encl_mul_ok (a b : R) : a != 0 -> b != 0 ->
+  encl_ok (fun x y => iv_mul (rn_lo x) (rn_hi x) (rn_lo y) (rn_hi y)) a b (a * b).
+Proof.
+move=> a0 b0 x y /rn_lo_hi_spec[Hl Hh Ha] /rn_lo_hi_spec[Hl' Hh' Hb]; rewrite /iv_mul /=.
+have [H1 E1] := qr_mul R Hl Hl'; have [H2 E2] := qr_mul R Hl Hh'.
+have [H3 E3] := qr_mul R Hh Hl'; have [H4 E4] := qr_mul R Hh Hh'.
+have [H12 E12] := qr_min R H1 H2; have [H34 E34] := qr_min R H3 H4.
+have [G12 F12] := qr_max R H1 H2; have [G34 F34] := qr_max R H3 H4.
+have [Hm Em] := qr_min R H12 H34; have [HM EM] := qr_max R G12 G34.
+split=> //; rewrite Em EM E12 E34 F12 F34 E1 E2 E3 E4.
+exact: mul_encl.
+Qed.
+
+Lemma rn_sgn_spec (x : rnum) (a : R) : rn_denotes x a -> zr (rn_sgn x) = sgr a.
+Proof.
+move=> Hx; have Hq : qpos (Z0, Zpos xH) by [].
+by rewrite /rn_sgn (rn_cmp_q_spec Hx Hq) /RefAlgSpec.qr /= zr0 mul0r subr0.
+Qed.
+
+Lemma rn_sgn_eq0 (x : rnum) (a : R) : rn_denotes x a -> (Z.eqb (rn_sgn x) Z0) = (a == 0).
+Proof. by move=> Hx; rewrite -(zr_eq0 R) (rn_sgn_spec Hx) sgr_eq0. Qed.
+
+Lemma denotes_zero : rn_denotes (RQ (Z0, Zpos xH)) 0.
+Proof. by split=> //; rewrite /RefAlgSpec.qr /= zr0 mul0r. Qed.
+
+Theorem rn_mul_spec_cond (fuel : nat) (x y z : rnum) (a b : R) :
+  rn_denotes x a -> rn_denotes y b -> rn_mul fuel x y = Some z -> rn_denotes z (a * b).
+Proof.
+move=> Hx Hy.
+have Hgen : (if (Z.eqb (rn_sgn x) Z0) || (Z.eqb (rn_sgn y) Z0) then Some (RQ (Z0, Zpos xH)) else
+             rn_select fuel (psqfree (ann_mul (rn_poly x) (rn_poly y)))
+              (fun x y => iv_mul (rn_lo x) (rn_hi x) (rn_lo y) (rn_hi y)) x y) = Some z ->
+            rn_denotes z (a * b).
+  rewrite (rn_sgn_eq0 Hx) (rn_sgn_eq0 Hy).
+  case: (altP (a =P 0)) => [->|a0] /=; first by case=> <-; rewrite mul0r; exact: denotes_zero.
+  case: (altP (b =P 0)) => [->|b0] /=; first by case=> <-; rewrite mulr0; exact: denotes_zero.
+  have [px0 rx] := rn_poly_spec Hx; have [py0 ry] := rn_poly_spec Hy.
+  have ann0 := ann_mul_neq0 px0 py0.
+  have [r0 Hsq Hroot] := psqfree_correct ann0.
+  apply: (rn_select_spec_cond count_open_correct r0 Hsq _ (encl_mul_ok a0 b0) Hx Hy).
+  by rewrite Hroot; exact: ann_mul_root.
+case: x Hx Hgen => [qa|p lo hi] Hx Hgen; case: y Hy Hgen => [qb|p' lo' hi'] Hy Hgen //=.
+case=> <-; case: Hx => Hqa ->; case: Hy => Hqb ->.
+by have [H1 H2] := qr_mul R Hqa Hqb.
+Qed.
+
 End Ops.
